@@ -33,7 +33,8 @@ def make_graph(k, ghost, n_edges, name="Cut"):
     r = k.r
     Cut = common.opaque_edge_class(k, ghost, name=name)
     vs = [r.Vertex(0, r.PoseR2([k.real("v0x"), k.real("v0y")])), r.Vertex(1, r.PoseR2([k.real("v1x"), k.real("v1y")]))]
-    layout = [[0, 1], [1, 0], [1]][:n_edges]
+    # n_edges == "fixed-only-edge": besides a binary edge, an edge that touches only the fixed vertex 0 (its chi2 still counts)
+    layout = [[0, 1], [0]] if n_edges == "fixed-only-edge" else [[0, 1], [1, 0], [1]][:n_edges]
     es = [Cut(list(ids)) for ids in layout]
     return r.Graph(es, vs), es, vs
 
@@ -121,15 +122,15 @@ def obligations(r, tier, seed):
     obs = []
     iters = (1, 2, 3, 4) if tier == "quick" else (1, 2, 3, 4, 5, 6)
     for max_iter in iters:
-        for n_edges in ((2,) if max_iter > 2 else (1, 3)) if tier == "quick" else (1, 2, 3):
+        for n_edges in (((2,) if max_iter > 2 else (1, 3)) if tier == "quick" else (1, 2, 3)) + (("fixed-only-edge",) if max_iter <= 2 or tier == "thorough" else ()):
             for verbose in (False, True):
                 for tol_zero in (False, True):
                     if tier == "quick" and verbose and tol_zero:
                         continue
                     def ob(k, n_edges=n_edges, max_iter=max_iter, verbose=verbose, tol_zero=tol_zero):
                         report_and_rule(k, n_edges, max_iter, verbose, tol_zero)
-                    obs.append(Ob("C12/report-and-stopping-rule/max_iter=%d/edges=%d/verbose=%s/tol=%s" % (max_iter, n_edges, verbose, "0" if tol_zero else "sym"),
-                                  ob, scope="shape-bounded", bound="max_iter=%d, %d cut edges, 2 vertices" % (max_iter, n_edges),
+                    obs.append(Ob("C12/report-and-stopping-rule/max_iter=%d/edges=%s/verbose=%s/tol=%s" % (max_iter, n_edges, verbose, "0" if tol_zero else "sym"),
+                                  ob, scope="shape-bounded", bound="max_iter=%d, %s cut edges, 2 vertices" % (max_iter, n_edges),
                                   funcs=FUNCS, solver="functional", light=True, max_paths=3000))
 
     for max_iter in ((1, 2, 3) if tier == "quick" else (1, 2, 3, 4, 5)):
@@ -163,6 +164,35 @@ def obligations(r, tier, seed):
                     k.same(x.chi2, y.chi2, "same chi2 of iteration %d" % i)
         obs.append(Ob("C12/verbose-does-not-alter-results/max_iter=%d" % max_iter, verbose_indep, scope="shape-bounded",
                       bound="max_iter=%d, 2 cut edges" % max_iter, funcs=[OPT], solver="functional", light=True, max_paths=3000))
+
+    # ---- "converged ... report exactly that": the test applied after the LAST update is the test the loop applies.  Exact, no band:
+    #      run the same graph (same opaque chi2 sequence, functional solver) with max_iter = n and with max_iter = n + 1.  When
+    #      the first run used all n updates, it reports converged  <=>  the second run stopped after n updates.
+    for n in ((1, 2, 3) if tier == "quick" else (1, 2, 3, 4, 5)):
+        for tol_zero in (False, True):
+            def same_predicate(k, n=n, tol_zero=tol_zero):
+                tol = 0 if tol_zero else k.nonneg("tol")
+                ghost_a = common.Ghost()
+                ga, esa, vsa = make_graph(k, ghost_a, 2)
+                with common.counting_spsolve(k, ghost_a):
+                    ra = ga.optimize(tol=tol, max_iter=n, verbose=False)
+                ghost_b = common.Ghost()
+                gb, esb, vsb = make_graph(k, ghost_b, 2)
+                with common.counting_spsolve(k, ghost_b):
+                    rb = gb.optimize(tol=tol, max_iter=n + 1, verbose=False)
+                k.note("updates", (ghost_a.s, ghost_b.s))
+                if ghost_a.s < n:
+                    k.check(ghost_b.s == ghost_a.s, "a run that stopped early stops at the same update with a larger max_iter", (ghost_a.s, ghost_b.s))
+                    k.holds(ra.converged, "and reports converged")
+                    k.holds(rb.converged, "and so does the longer run")
+                    return
+                k.check(ghost_b.s >= n, "the longer run does not stop before update n either", ghost_b.s)
+                if ghost_b.s == n:
+                    k.holds(ra.converged, "the longer run stopped after update n  ==>  the run limited to n updates reports converged")
+                else:
+                    k.holds(neg(k, ra.converged), "the longer run went past update n  ==>  the run limited to n updates reports not converged")
+            obs.append(Ob("C12/converged-at-the-limit-is-the-loop-test/max_iter=%d/tol=%s" % (n, "0" if tol_zero else "sym"), same_predicate,
+                          scope="shape-bounded", bound="max_iter=%d vs %d, 2 cut edges" % (n, n + 1), funcs=[OPT], solver="functional", light=True, max_paths=3000))
 
     nmax = 4 if tier == "quick" else 6
     for n in range(2, nmax + 1):
